@@ -54,6 +54,16 @@ def cases(ctx):
         # the angle-defect law does not depend on the unit of length
         for sc in (1e3, 1e-2, 1e-4, 1e-5):
             yield {"kind": "closed", "name": name, "verts": [[x * sc for x in v] for v in vs], "faces": fs, "scale": sc}
+    # queries answered before a transform that re-winds the faces (or not) must not freeze any later answer
+    HM = {"mirror": np.diag([1.0, 1.0, -1.0, 1.0]).tolist(), "mirror_scale": np.diag([-2.0, 1.0, 0.5, 1.0]).tolist(),
+          "point": np.diag([-1.0, -1.0, -1.0, 1.0]).tolist(), "turn": [[0.0, -1.0, 0.0, 1.0], [1.0, 0.0, 0.0, 2.0], [0.0, 0.0, 1.0, 3.0], [0, 0, 0, 1.0]],
+          "scale": np.diag([2.0, 2.0, 2.0, 1.0]).tolist()}
+    PRE = [["is_watertight"], ["is_volume"], ["is_winding_consistent"], ["euler_number", "body_count"],
+           ["is_watertight", "face_adjacency", "edges_unique"], []]
+    for name, vs, fs in _closed_meshes()[:4]:
+        for hm in HM:
+            for pre in PRE:
+                yield {"kind": "closed", "name": name, "verts": vs, "faces": fs, "history": {"pre": pre, "M": HM[hm], "name": hm}}
     # exhaustive small scopes
     if ctx.tier == "thorough":
         for f in ALL4:
@@ -124,6 +134,16 @@ def run_case(c):
     m = _mesh(c)
     nf = len(c["faces"])
     o = {}
+    if c.get("history"):
+        # some queries are answered first, then the mesh is moved (mirrored, scaled, turned): every query afterwards
+        # must still be the direct count on the faces the mesh holds now
+        for k_ in c["history"]["pre"]:
+            getattr(m, k_)
+        m.apply_transform(np.array(c["history"]["M"], dtype=np.float64))
+        o["faces_now"] = np.array(m.faces).tolist()
+        wt, wc = m.is_watertight, m.is_winding_consistent
+        if not isinstance(wt, (bool, np.bool_)) or not isinstance(wc, (bool, np.bool_)):
+            o["not_boolean"] = [repr(wt), repr(wc)]
     o["edges"] = m.edges.tolist()
     o["edges_face"] = m.edges_face.tolist()
     o["edges_sorted"] = m.edges_sorted.tolist()
@@ -181,7 +201,10 @@ def oracle(c, o):
     """direct counting on the face list"""
     if "err" in o:
         return {"kind": c["kind"], "fail": "raised", "err": o["err"]}
-    fs = [tuple(f) for f in c["faces"]]
+    if o.get("not_boolean"):
+        return {"kind": c["kind"], "check": "watertight-or-winding-not-a-boolean-after-a-transform",
+                "transform": (c.get("history") or {}).get("name")}
+    fs = [tuple(f) for f in o.get("faces_now", c["faces"])]
     nv = c["nv"] if c["kind"] == "topo" else len(c["verts"])
     nf = len(fs)
 
@@ -260,7 +283,7 @@ def oracle(c, o):
 
 def model_request(c, o):
     nv = c["nv"] if c["kind"] == "topo" else len(c["verts"])
-    return {"p": "C05", "op": "topology", "nv": nv, "faces": c["faces"]}
+    return {"p": "C05", "op": "topology", "nv": nv, "faces": o.get("faces_now", c["faces"])}
 
 
 def compare(c, o, m):
@@ -292,7 +315,7 @@ def compare(c, o, m):
 
 
 def nontrivial(c, o):
-    fs = c["faces"]
+    fs = o.get("faces_now", c["faces"])
     return len(fs) >= 2 and any(set(fs[0]) & set(f) for f in fs[1:])
 
 
